@@ -119,6 +119,35 @@ def check_falsy_values(cap, hist):
     return None
 
 
+def check_mutable_arg(cap, hist):
+    """the argument is ONE mutable object edited in place between calls; the key is what hash_func reads from it at
+    the time of the call (the documented use: mutable_pseudo_hash on a Series).  Results and recomputations are those
+    of a reference LRU over the key sequence."""
+    from visions.utils import cache as vc
+    calls = []
+    cur = [0]
+
+    def func(box):
+        calls.append(cur[0])
+        return ("v", box[0], cur[0])
+    wrapped = vc.lru_cache(hash_func=lambda box: box[0], max_length=cap)(func)
+    box = [None]
+    exp = ref_lru(cap, hist)
+    for i, k in enumerate(hist):
+        cur[0] = i
+        box[0] = k
+        try:
+            v = wrapped(box)
+        except Exception as e:  # noqa
+            return f"call {i} (key {k}, passed in a mutable object edited in place) raised {type(e).__name__}"
+        if v[1] != k:
+            return f"call {i}: the same mutable argument now holds key {k}, the cached result of key {v[1]} was returned (not transparent)"
+        if v[2] != exp[i][1]:
+            return (f"call {i} (key {k}, same mutable argument object as the previous call): value computed at call {v[2]}, "
+                    f"a reference LRU of capacity {cap} over the key sequence would have computed it at call {exp[i][1]}")
+    return None
+
+
 def histories(tier, rnd):
     """Exhaustive histories over 4 keys up to length k for capacities 1..3, then random long ones."""
     kmax = 6 if tier == "quick" else 8
@@ -189,7 +218,7 @@ def replay(path):
     if "history" not in r:
         print("replay names a broken obligation, no input to re-run:", r.get("broken_obligations"))
         return 1
-    msg = (check_falsy_values if r.get("value_function") == "falsy" else check_property_on_impl)(r["capacity"], r["history"])
+    msg = {"falsy": check_falsy_values, "mutable-argument": check_mutable_arg}.get(r.get("value_function"), check_property_on_impl)(r["capacity"], r["history"])
     print("replay:", "property fails: " + msg if msg else "property holds on this input")
     return 1 if msg else 0
 
@@ -249,8 +278,25 @@ def run(args):
             if msg:
                 falsy_fail = (cap, h, msg)
                 break
+    mut_fail = None
+    if not failing and not falsy_fail:
+        for cap, h in cases:
+            if len(h) > 5 and n_s2 % 5:
+                n_s2 += 1
+                continue
+            n_s2 += 1
+            msg = check_mutable_arg(cap, h)
+            if msg:
+                mut_fail = (cap, h, msg)
+                break
     run.cov["property_oracle_cases_on_impl"] = n_s2
-    if falsy_fail:
+    if mut_fail:
+        cap, h, msg = mut_fail
+        h = shrink(cap, h, lambda c, x: check_mutable_arg(c, x) is not None)
+        run.violation({"capacity": cap, "history": h, "what": check_mutable_arg(cap, h), "value_function": "mutable-argument",
+                       "python": f"from visions.utils.cache import lru_cache; box=[None]; f=lru_cache(lambda b: b[0],{cap})(lambda b: ('v', b[0])); [(box.__setitem__(0, k), f(box)) for k in {h}]",
+                       "broken_obligations": run.failed_obligations()})
+    elif falsy_fail:
         cap, h, msg = falsy_fail
         h = shrink(cap, h, lambda c, x: check_falsy_values(c, x) is not None)
         run.violation({"capacity": cap, "history": h, "what": check_falsy_values(cap, h), "value_function": "falsy",
